@@ -29,7 +29,7 @@ void comp_case(Ctx &c) {
 #define VF_COMP_ENUM(K, E, ER, F)                                                                                      \
     VF_REGISTER(std::string("comp/") + ::vf::KT<K>::name() + ",e" #E ",er" #ER "," #F "#enum", (&::vf::comp_case<K, E, ER, F, 2>), 8.6)
 #define VF_COMP_BIG(K, E, ER, F)                                                                                       \
-    VF_REGISTER(std::string("comp/") + ::vf::KT<K>::name() + ",e" #E ",er" #ER "," #F "#big", (&::vf::comp_case<K, E, ER, F, 3>), 0.0041)
+    VF_REGISTER(std::string("comp/") + ::vf::KT<K>::name() + ",e" #E ",er" #ER "," #F "#big", (&::vf::comp_case<K, E, ER, F, 3>), 0.0051)
 #define VF_COMP_SWEEP(K, E, ER, F)                                                                                     \
     VF_REGISTER(std::string("comp/") + ::vf::KT<K>::name() + ",e" #E ",er" #ER "," #F "#sweep", (&::vf::comp_case<K, E, ER, F, 4>), 0.0003)
 #define VF_COMP_HUGE(K, E, ER, F)                                                                                      \
@@ -103,7 +103,7 @@ void bucket_case(Ctx &c) {
                 (&::vf::bucket_case<K, E, TOP, BITS, F, 2>), 8.6)
 #define VF_BUCKET_BIG(K, E, TOP, BITS, F)                                                                              \
     VF_REGISTER(std::string("bucket/") + ::vf::KT<K>::name() + ",e" #E ",top" #TOP ",bits" #BITS "," #F "#big",       \
-                (&::vf::bucket_case<K, E, TOP, BITS, F, 3>), 0.0041)
+                (&::vf::bucket_case<K, E, TOP, BITS, F, 3>), 0.0051)
 #define VF_BUCKET_SWEEP(K, E, TOP, BITS, F)                                                                            \
     VF_REGISTER(std::string("bucket/") + ::vf::KT<K>::name() + ",e" #E ",top" #TOP ",bits" #BITS "," #F "#sweep",     \
                 (&::vf::bucket_case<K, E, TOP, BITS, F, 4>), 0.0003)
@@ -196,7 +196,7 @@ void ef_case(Ctx &c) {
 #define VF_EF_ENUM(K, E, F)                                                                                            \
     VF_REGISTER(std::string("ef/") + ::vf::KT<K>::name() + ",e" #E "," #F "#enum", (&::vf::ef_case<K, E, F, 2>), 8.6)
 #define VF_EF_BIG(K, E, F)                                                                                             \
-    VF_REGISTER(std::string("ef/") + ::vf::KT<K>::name() + ",e" #E "," #F "#big", (&::vf::ef_case<K, E, F, 3>), 0.0041)
+    VF_REGISTER(std::string("ef/") + ::vf::KT<K>::name() + ",e" #E "," #F "#big", (&::vf::ef_case<K, E, F, 3>), 0.0051)
 #define VF_EF_SWEEP(K, E, F)                                                                                           \
     VF_REGISTER(std::string("ef/") + ::vf::KT<K>::name() + ",e" #E "," #F "#sweep", (&::vf::ef_case<K, E, F, 4>), 0.0003)
 #define VF_EF_HUGE(K, E, F)                                                                                            \
